@@ -24,6 +24,11 @@ func init() {
 			{ID: "C11.R4", Text: "lock hand-off: Lock is followed on every path by exactly one AfterFunc(reopen); the reopen function defers Unlock before anything else", Run: c11r4},
 			{ID: "C11.R5", Text: "fresh reopen: Open calls VBucketDiscovery.Get and Checkpoint.Load on every path; AfterFunc delay is const 0 ⇔ membership type == dynamic, else RebalanceDelay", Run: c11r5},
 			{ID: "C11.R8", Text: "closed once: the stream close covers every assigned vBucket (same rule as C13.R8)", Run: closeAllRange},
+			{ID: "C11.R10", Text: "no event is delivered while the stream is closed: the delivery switch is tested after the rollback-mitigation wait, so an event parked in the gate when the rebalance closes the stream is released without being delivered (same rule as C13.R7)", Run: func(c *Ctx, id string) {
+				oi := observerInfo(c, id)
+				c03DeliverOAE(c, id, oi)
+				gateOAE(c, id, oi, "wait")
+			}},
 			{ID: "C11.R6", Text: "a repeated membership causes no notification (same rule as C10.R1)", Run: c10r1},
 			{ID: "C11.R7", Text: "the bus listener subscribed by the client calls Stream.Rebalance on every path (no notification is dropped while closed or reopening)", Run: c11r7},
 			{ID: "C11.R9", Text: "notifications are handled one at a time: the debounce test of Rebalance reads the balancing state before taking the lock, so every listener that reaches Stream.Rebalance is subscribed serialised (SubscribeAsync(…, transactional=true) or synchronous Subscribe)", Run: c11r9},
@@ -126,8 +131,8 @@ func c11r2(c *Ctx, id string) {
 			return "", nil
 		}
 		n := calleeName(cc)
-		if strings.Contains(n, "logger.Logger") {
-			return "", nil
+		if strings.Contains(n, "logger.Logger") || w.pureAccessor(cc.StaticCallee()) != nil {
+			return "", nil // logging, or a read-only accessor of a field: no effect
 		}
 		return strings.ReplaceAll(n, " ", "_"), nil
 	}
